@@ -163,6 +163,32 @@ for _k, _v in ROUND56.items():
     CHECKS[_k]["text"] = CHECKS[_k]["text"] + _v
 
 
+ROUND7 = {
+    "C01": " Every read of a result is stamped with a digest of the value at that moment (readers must be fed what the producer returned); a failing command is entered once per run whatever it raises.",
+    "C02": " A third of the models are rebuilt through add_command with number parameters as NumPy scalars of the same value; NetCDF models read a variable as fuzzy (cells inside the 1 % band are limited).",
+    "C03": " PrintVars text of fields beyond 1000 cells compared between payloads; derived results holding the marker in a valid cell written and read back.",
+    "C04": " Unsigned / narrow-integer crisp layers; one-layer lists of out-of-range layers.",
+    "C05": " CSV tables of 1-3 rows; written NetCDF files compared between shapes.",
+    "C06": " All-integer layers with whole-valued float weights; a result used again after it was written to NetCDF next to another field.",
+    "C07": " Copies of fuzzy results and wide-integer results chained into arithmetic commands through Command.result; unsigned inputs.",
+    "C08": " Narrow and unsigned integer fields for all conversions (default thresholds); the CSV writer fed an integer field first.",
+    "C09": " A fuzzy producer holding NaN next to a real mask array.",
+    "C10": " Dollar / brace / percent strings and oddly named EEMS 2.0 fields through Program.from_source.",
+    "C11": " A second run after a runtime fault; arguments named twice on different lines.",
+    "C12": " None values and blank-padded result names in the fault matrix; valid models with FF / VT / NEL / LS in comments through the tool.",
+    "C13": " Nested lists given to scalar parameters (message rendered); paths that run through a regular file.",
+    "C14": " Results on the cycle read before run(); cycle members holding injected results; cyclic files with an output tail through the tool.",
+    "C15": " Non-string Metadata values through the API.",
+    "C16": " Lines of translated commands compared with where the renderer put each command name.",
+    "C17": " Headers holding braces / percent signs with every message rendered; a failed model repaired on disk and run again on the same objects.",
+    "C18": " Integer markers beyond 2^53; the template's _FillValue used as ordinary data.",
+    "C19": " The full text of 'command does not exist' for misspelt names is part of the compared snapshot; user commands named like EEMS 2.0 ones (but for case) in 2.0-style files.",
+    "C20": " References to a command that failed clean as before it failed; data-type tables pinned at construction, NetCDF libraries loaded first in most worlds.",
+}
+for _k, _v in ROUND7.items():
+    CHECKS[_k]["text"] = CHECKS[_k]["text"] + _v
+
+
 def main():
     props = [json.loads(l) for l in open(os.path.join(VERIF, "properties.jsonl"))]
     checks = []
